@@ -1,6 +1,7 @@
 package tlsk
 
 import (
+	"fmt"
 	"testing"
 
 	"github.com/tjfoc/gmsm/gmtls"
@@ -216,6 +217,56 @@ func TestRefECDHECBCInterop(t *testing.T) {
 					t.Errorf("lib client / ECDHE-CBC %04x ref server suite %04x auth %v: %s ref=%+v seen=%v checks=%v", ver, suite, auth, o.Describe(), rs.Res, rs.Peer.Seen, rs.Peer.Checks)
 				}
 			}
+		}
+	}
+}
+
+func TestRefRenegotiation(t *testing.T) {
+	p := Get()
+	type prof struct {
+		name  string
+		setup func(q *gmref.Peer)
+		id    gmref.Identity
+		cfg   func() *gmtls.Config
+	}
+	profs := []prof{
+		{"GM", func(q *gmref.Peer) {}, ServerIdentity(), func() *gmtls.Config {
+			return &gmtls.Config{GMSupport: &gmtls.GMSupport{}, RootCAs: p.Roots, ServerName: ServerName, Time: FixedTime, Rand: wire.NewRand(2)}
+		}},
+		{"TLS12", func(q *gmref.Peer) { q.UseTLS() }, gmref.Identity{Certs: [][]byte{p.RSA.Certificate[0]}, RSAKey: p.RSAKey}, func() *gmtls.Config {
+			return &gmtls.Config{RootCAs: p.StdRootsG, ServerName: ServerName, Time: FixedTime, Rand: wire.NewRand(2), MinVersion: 0x0303, MaxVersion: 0x0303, CipherSuites: []uint16{gmref.SuiteAESCBC, gmref.SuiteAESGCM}}
+		}},
+		{"TLS10", func(q *gmref.Peer) { q.UseTLSVersion(0x0301) }, gmref.Identity{Certs: [][]byte{p.RSA.Certificate[0]}, RSAKey: p.RSAKey}, func() *gmtls.Config {
+			return &gmtls.Config{RootCAs: p.StdRootsG, ServerName: ServerName, Time: FixedTime, Rand: wire.NewRand(2), MinVersion: 0x0301, MaxVersion: 0x0301, CipherSuites: []uint16{gmref.SuiteAESCBC}}
+		}},
+	}
+	for _, pr := range profs {
+		for _, echo := range []bool{true, false} {
+			cfg := pr.cfg()
+			cfg.Renegotiation = gmtls.RenegotiateFreelyAsClient
+			var peer *gmref.Peer
+			script := &gmref.Script{Data: func(q *gmref.Peer) error {
+				if err := q.ReadApp(4); err != nil {
+					return err
+				}
+				if err := q.WriteRecord(gmref.RecApp, []byte("po")); err != nil {
+					return err
+				}
+				if r := q.RenegotiateServer(&gmref.Script{}, true); r.Err != nil || !r.Completed {
+					return fmt.Errorf("renegotiation: %+v", r)
+				}
+				if err := q.WriteRecord(gmref.RecApp, []byte("ng")); err != nil {
+					return err
+				}
+				return q.CloseNotify()
+			}}
+			o := RunLibVsRef(cfg, true, LibApp(true), pr.id, 5, func(q *gmref.Peer) { pr.setup(q); q.EchoRenegInfo = echo; peer = q }, script, nil)
+			if !o.Lib.Complete || string(o.Lib.Read) != "pong" || o.Ref.Res.Err != nil {
+				t.Errorf("%s echo=%v: %s", pr.name, echo, o.Describe())
+				continue
+			}
+			ri := peer.ClientExts[0xff01]
+			t.Logf("%s echo=%v ok; renegotiation ClientHello renegotiation_info=%x handshakes=%d", pr.name, echo, ri, peer.Handshakes)
 		}
 	}
 }
